@@ -64,6 +64,9 @@ namespace foonathan
                 ~temporary_stack_list_node() noexcept {}
 
             private:
+                // adds into list
+                void link() noexcept;
+
                 temporary_stack_list_node* next_ = nullptr;
                 std::atomic<bool>          in_use_;
 
